@@ -279,6 +279,53 @@ def ops_case(case):
     return bad, worlds
 
 
+def long_part(ctx):
+    """StripedOps.tla's Assemble at sizes no enumeration reaches (closed form: row g of the global array belongs to rank
+    g mod R; the value stored at a global position is that position): a rank holding more than 2^20 elements -- where
+    a communicator layer would start to cut messages -- in lengths that are no multiple of any power of two"""
+    from mpi4py import MPI
+    from enspara import mpi
+    n = 0
+    for R, lens in [(2, [1048576 + 123, 5, 3, 1200001]), (3, [7, 2 * 1048576 + 77, 1048577, 4, 1, 1048576])]:
+        starts = np.concatenate([[0], np.cumsum(lens)])
+        total = int(starts[-1])
+        T = R * 1048576 + R + 3          # striped flat array: more than 2^20 elements on every rank
+        for dt in (np.int64, np.float64):
+            def body(rank):
+                local = np.concatenate([np.arange(starts[g], starts[g + 1], dtype=dt) for g in range(rank, len(lens), R)])
+                keep = local.copy()
+                rag = mpi.ops.assemble_striped_ragged_array(local, np.array(lens))
+                same = bool(np.array_equal(local, keep))
+                flat = mpi.ops.assemble_striped_array(np.arange(1, T + 1, dtype=dt)[rank::R])
+                return np.asarray(rag), same, np.asarray(flat)
+            n += 1
+            ctx.case(("long-assemble", R, np.dtype(dt).name))
+            try:
+                results, world = MPI.run_world(body, R)
+            except Exception as ex:
+                ctx.violation({"kind": "replay", "op": "assemble (long)", "R": R, "lengths": lens,
+                               "error": "%s: %s" % (type(ex).__name__, str(ex)[:200])},
+                              key="mpi.ops/assemble-long/raises-%s" % type(ex).__name__)
+                continue
+            for rank, (rag, same, flat) in enumerate(results):
+                wrong = np.flatnonzero(rag != np.arange(total)) if rag.shape == (total,) else None
+                if wrong is None or len(wrong) or rag.dtype != np.dtype(dt) or not same:
+                    ctx.violation({"kind": "replay", "op": "assemble_striped_ragged_array", "R": R, "lengths": lens,
+                                   "rank": rank, "dtype": np.dtype(dt).name, "shape": list(rag.shape),
+                                   "first_wrong_positions": None if wrong is None else wrong[:5].tolist(),
+                                   "n_wrong": None if wrong is None else int(len(wrong)), "input_kept": same,
+                                   "how": "local = the global positions owned by the rank; the assembled array must "
+                                          "be arange(total) on every rank"},
+                                  key="mpi.ops/assemble_ragged-long/differs-from-serial")
+                want = np.arange(1, T + 1, dtype=dt)
+                if flat.shape != want.shape or not np.array_equal(flat, want):
+                    ctx.violation({"kind": "replay", "op": "assemble_striped_array", "R": R, "rank": rank,
+                                   "global_size": T, "dtype": np.dtype(dt).name,
+                                   "how": "local = arange(1, T + 1)[rank::R]; every rank must get arange(1, T + 1)"},
+                                  key="mpi.ops/assemble-long/differs-from-serial")
+    ctx.notes["long_assemble_cases"] = n
+
+
 def io_part(ctx):
     """striped loaders against real files (serial definition: the rows of the file in order)"""
     from mpi4py import MPI
@@ -329,6 +376,39 @@ def io_part(ctx):
                             ctx.violation({"kind": "replay", "loader": which, "rows": lens, "R": R, "stride": stride,
                                            "rank": rank, "got": gl, "expected": exp_lens},
                                           key="mpi.io/load_%s_as_striped/global-lengths/%s" % (which, "stride>1" if stride > 1 else "stride=1"))
+        # a file not written by ra.save: twelve tables with unpadded numbers (arr_0 .. arr_11). The serial definition
+        # of its content is what ra.load returns (the order in which pytables lists the nodes)
+        import tables
+        h5 = os.path.join(d, "foreign.h5")
+        frows = {"arr_%d" % i: np.arange(100 * i, 100 * i + 2 * (1 + i % 5), dtype=np.float32).reshape(-1, 2)
+                 for i in range(12)}
+        with tables.open_file(h5, "w") as fh:
+            for k in sorted(frows, key=lambda k: int(k[4:])):
+                fh.create_carray("/", k, obj=frows[k])
+        serial = ra.load(h5)
+        rows = [np.asarray(serial[i]) for i in range(len(serial.lengths))]
+        for R in (1, 2, 3, 5):
+            for stride in (1, 2):
+                def body(rank):
+                    gl, loc = mio.load_h5_as_striped(h5, stride=stride)
+                    return [int(x) for x in gl], np.asarray(loc)
+                n += 1
+                ctx.case(("io", "h5-foreign", 12, R, stride))
+                try:
+                    results, world = MPI.run_world(body, R)
+                except Exception as ex:
+                    ctx.violation({"kind": "replay", "loader": "h5 (tables arr_0..arr_11, not written by ra.save)",
+                                   "R": R, "stride": stride, "error": "%s: %s" % (type(ex).__name__, str(ex)[:200])},
+                                  key="mpi.io/load_h5_as_striped/foreign-names/raises-%s" % type(ex).__name__)
+                    continue
+                for rank, (gl, loc) in enumerate(results):
+                    exp = np.concatenate([r[::stride] for r in rows[rank::R]])
+                    if gl != [len(r[::stride]) for r in rows] or loc.shape != exp.shape or not np.array_equal(loc, exp):
+                        ctx.violation({"kind": "replay", "loader": "h5 (tables arr_0..arr_11, not written by ra.save)",
+                                       "R": R, "stride": stride, "rank": rank, "global_lengths": gl,
+                                       "serial_lengths (ra.load)": [len(r[::stride]) for r in rows],
+                                       "got_first_values": loc[:, 0].tolist()[:12], "expected_first_values": exp[:, 0].tolist()[:12]},
+                                      key="mpi.io/load_h5_as_striped/foreign-names/row-order")
     finally:
         shutil.rmtree(d, ignore_errors=True)
     ctx.notes["io_cases"] = n
@@ -433,4 +513,5 @@ def run(ctx):
             worlds += ws[:1]
     validate_worlds(ctx, worlds, "communicator logs (%d worlds)" % len(worlds))
     io_part(ctx)
+    long_part(ctx)
     ctx.exhaustive = ctx.tier == "thorough"
